@@ -804,9 +804,18 @@ static void fd_default(void *_x)
 	struct fdcb *x = _x;
 	struct fdslot *f = x->f;
 	if (script_iter && !script_done && iter >= script_iter) {
-		/* scripted application step of this seed (cost 0) */
+		/* scripted application step of this seed (cost 0); skipped when a deviation has made it invalid meanwhile
+		 * (e.g. the timer it would unregister is gone already) */
+		struct act vm[128];
+		int vn = build_menu(vm, 128, 0), vi;
 		script_done = 1;
-		perform(&script_act);
+		for (vi = 0; vi < vn; vi++)
+			if (vm[vi].op == script_act.op && vm[vi].a == script_act.a && vm[vi].b == script_act.b && vm[vi].c == script_act.c)
+				break;
+		if (vi < vn)
+			perform(&script_act);
+		else
+			mc_obs("script-skipped");
 	}
 	char buf[256];
 	ssize_t r;
